@@ -15,18 +15,18 @@ Is(e) == l <= Len(T) /\ E.a = e
 Adv == l' = l + 1 /\ UNCHANGED tid
 Top(b) == IF b >= 128 THEN 1 ELSE 0
 TInit == /\ tid \in 1..Len(Traces) /\ l = 1
-         /\ obj = Start(H.flow, H.kt, H.size, H.dflt) /\ act = [a |-> "Init"] /\ TLCSet(tid, 1)
+         /\ obj = Start(H.flow, H.kt, H.size, H.dflt, H.kk0) /\ act = [a |-> "Init"] /\ TLCSet(tid, 1)
 \* the concrete key is a supported one, has the profile it claims, and its default hash was identified independently
-TKey == /\ Is("Key") /\ [kt |-> H.kt, size |-> H.size] \in KeyTypes /\ H.flow \in Flows
+TKey == /\ Is("Key") /\ [kt |-> H.kt, size |-> H.size] \in KeyTypes /\ H.flow \in Flows /\ H.kk0 \in {"priv", "pub"}
         /\ E.prof \in KeyProfiles(H.kt, H.size) /\ KeyProfBinds(H.kt, E.prof, E.xl, E.yl)
         /\ H.dflt \in Hashes
-        /\ (H.dflt = DefaultHash(H.kt, H.size) \/ PrintT(<<"DRIFT", H.id, "default-hash", H.dflt>>))
+        /\ (IF H.dflt = DefaultHash(H.kt, H.size) THEN TRUE ELSE PrintT(<<"DRIFT", H.id, "default-hash", H.dflt>>))
         /\ UNCHANGED vars /\ Adv
 TExport == /\ Is("Export") /\ Export(E.fmt, E.pwd, E.el, E.by)
            /\ E.ok /\ E.indep /\ E.encrypted = act'.encrypted
            /\ (E.fmt = "NXP" => E.len = act'.len)
-           /\ (\/ E.fmt = "NXP" \/ obj.kk = "priv" \/ E.derLen \in StdPubDerLens(obj.kt, obj.size)
-               \/ PrintT(<<"DRIFT", H.id, "public-der-length", E.derLen>>))
+           /\ (IF E.fmt = "NXP" \/ obj.kk = "priv" \/ E.derLen \in StdPubDerLens(obj.kt, obj.size) THEN TRUE
+               ELSE PrintT(<<"DRIFT", H.id, "public-der-length", E.derLen>>))
            /\ Adv
 TParse == Is("Parse") /\ Parse(E.entry, E.given, E.by) /\ E.res = act'.res /\ Adv
 TToPublic == Is("ToPublic") /\ ToPublic /\ E.ok /\ Adv
